@@ -13,7 +13,7 @@ def has_tie(pid):
         t = open(os.path.join(ROOT, "coq", "Properties_%s.v" % pid)).read()
     except OSError:
         return False
-    return pid in srctie_texts.SRC_TIE and ("gen.Gen_Loop" in t or "gen.Gen_Heap" in t)
+    return pid in srctie_texts.SRC_TIE and ("gen.Gen_Loop" in t or "gen.Gen_Heap" in t or "gen.Gen_Plug" in t)
 NOT_APPLICABLE = {}  # property -> reason (kept current by hand; see DESIGN.md)
 PENDING = "check not built yet in this development (time); the design for it is in DESIGN.md section 6 -- no claim is made"
 checks = []
